@@ -119,7 +119,15 @@ pub fn check_case(env: &Env, ctx: &Ctx, case: &Case) -> (Vec<Violation>, LagStat
     };
     runs += 1;
     if base.timed_out || base.exit_code != Some(0) {
-        out.push(Violation::new("D-delivery-independence", &format!("e1:{}:reference-failed", mode), format!("fault-free run failed: exit {:?} timeout {} stderr {}", base.exit_code, base.timed_out, String::from_utf8_lossy(&base.stderr).chars().take(200).collect::<String>())));
+        let err = String::from_utf8_lossy(&base.stderr).to_string();
+        if err.contains("panicked at") && !base.timed_out {
+            // a crash on this input whatever the delivery (here: of a binary built with debug
+            // assertions) is not a matter of streaming; the case is set aside, as in the E2 part
+            eprintln!("NOTE: incidental panic in a fault-free run of the real binary (not a C11 matter): {}", err.lines().filter(|l| !l.trim().is_empty()).take(2).collect::<Vec<_>>().join(" "));
+            *fired.entry("incidental_panic_in_reference_run".into()).or_default() += 1;
+            return (out, stats, runs, fired);
+        }
+        out.push(Violation::new("D-delivery-independence", &format!("e1:{}:reference-failed", mode), format!("fault-free run failed: exit {:?} timeout {} stderr {}", base.exit_code, base.timed_out, err.chars().take(200).collect::<String>())));
         return (out, stats, runs, fired);
     }
     let ref_out = output_of(case, &base);
